@@ -151,7 +151,9 @@ def gen_cases(tier, seed, shard, nshards):
                  [" NAM T\n", " ORG $1000\n", "S LDA T,PCR\n"] + [" NOP\n"] * 122 + ["T RTS\n"], [" FCC \"abc\n"], [" LDA L,X\n", "L NOP\n"],
                  ["V EQU W\n", "W EQU 5\n"], [" ORG $FFFF\n", " LDX #1\n"], [" STA #1\n"], [" LEAX $10\n"], [" TFR A,X\n"],
                  [" ORG $FFFE\n", " LDA #1\n", "L NOP\n", " NOP\n"], [" ORG $FFF0\n", " RMB 100\n", " NOP\n"], ["V EQU W+1\n", "W EQU 5\n", " LDA #V\n"],
-                 ["L NOP\n", " LDA #L/0\n"], [" LDX #65535*2\n"], ["L NOP\n", " FDB L*70000\n"]]
+                 ["L NOP\n", " LDA #L/0\n"], [" LDX #65535*2\n"], ["L NOP\n", " FDB L*70000\n"], ["L NOP\n", " LEAX L/0,PCR\n"],
+                 ["Z EQU 0\n", "L NOP\n", " LDA [L/Z,PCR]\n"], [" ORG $F000\n", "L NOP\n", " LDX #L+$8000\n", " LEAX L*3,PCR\n", " FDB L+$7000\n"],
+                 ["Z EQU 0\n", " RMB Z\n", "E RMB 0\n", " FCB 1\n"], [" ORG $8000\n", "L NOP\n", " JMP L*2\n", " LDA L+L\n"]]
     for k, t in enumerate(bad_texts):
         i += 1
         if i % nshards == shard:
